@@ -222,7 +222,11 @@ where
     ) -> (Result<T, SingleflightError<E>>, bool) {
         // Get the call to use and a handle for retrieving the results
         let (call, created) = self.get_call_or_create(key).await;
+        #[cfg(huggingface_xet_core_verif)]
+        crate::verif_hooks::maybe_yield("singleflight:after-lookup").await;
         let results_future = call.get_future();
+        #[cfg(huggingface_xet_core_verif)]
+        crate::verif_hooks::maybe_yield("singleflight:after-get-future").await;
 
         if created {
             // spawn the owner task and wait
@@ -235,6 +239,8 @@ where
                 .map_err(|e| SingleflightError::JoinError(e.to_string()))
                 .and(future_result);
 
+            #[cfg(huggingface_xet_core_verif)]
+            crate::verif_hooks::maybe_yield("singleflight:before-remove").await;
             // since we created the call, remove it from the map
             if let Err(e) = self.remove_call(key).await {
                 return (Err(e), true);
